@@ -128,7 +128,7 @@ func execTmpl(s *scenario) string {
 	if s.src == "pool" && s.admPre {
 		// the pool was filled on the branch that is about to be abandoned and
 		// nobody tells it about the reorganisation
-		ci.clock.set(worldT0 + worldSpacing*int64(worldBlocks) + 1200)
+		ci.clock.set(worldT0 + spacing(s.world)*int64(worldBlocks) + 1200)
 		mp, res := s.realPool(ci, bp)
 		if res != "" {
 			return res
@@ -145,7 +145,7 @@ func execTmpl(s *scenario) string {
 	if s.src == "pool" && !s.admPre {
 		preNow := s.now
 		if s.fwd > 0 {
-			preNow -= worldSpacing * int64(s.fwd)
+			preNow -= spacing(s.world) * int64(s.fwd)
 		}
 		ci.clock.set(preNow)
 		mp, res := s.realPool(ci, bp)
@@ -244,6 +244,9 @@ func (s *scenario) checkFacts(w *world, ci *chainInst, bp *builtPool) string {
 		}
 	}
 
+	if s.dp != "" && (s.dp != diffParams(ci.params) || s.hist != realHist(ci)) {
+		return "stale-line:difficulty"
+	}
 	// 2. the oracle values the line carries about the pool
 	for i, o := range s.analyze(w, bp) {
 		t := s.txs[i]
@@ -358,7 +361,11 @@ func (s *scenario) observe(w *world, ci *chainInst, bp *builtPool, gen *mining.B
 	ccb := ci.chain.CheckConnectBlockTemplate(ublk) == nil
 
 	// update time and extra nonce, then re-validate
-	ci.clock.set(s.now + 31)
+	unow := s.now + 31
+	if s.unow != 0 {
+		unow = s.unow
+	}
+	ci.clock.set(unow)
 	upd := *blk
 	upd.Transactions = make([]*wire.MsgTx, n)
 	for i, tx := range blk.Transactions {
@@ -371,7 +378,7 @@ func (s *scenario) observe(w *world, ci *chainInst, bp *builtPool, gen *mining.B
 	updOK := gen.UpdateBlockTime(&upd) == nil && gen.UpdateExtraNonce(&upd, s.nextH, nonce) == nil
 	if want, err := mining.VerifStandardCoinbaseScript(s.nextH, nonce); err != nil ||
 		!bytes.Equal(upd.Transactions[0].TxIn[0].SignatureScript, want) ||
-		upd.Header.Timestamp.Unix() != headerTimeAt(s.now+31, s.mtp) || upd.Header.Bits != blk.Header.Bits {
+		upd.Header.Timestamp.Unix() != headerTimeAt(unow, s.mtp) || (s.dp == "" && upd.Header.Bits != blk.Header.Bits) {
 		updOK = false
 	}
 	ub := btcutil.NewBlock(&upd)
@@ -386,6 +393,10 @@ func (s *scenario) observe(w *world, ci *chainInst, bp *builtPool, gen *mining.B
 		}
 	}
 
+	s.diffObs = ""
+	if s.dp != "" {
+		s.diffObs = fmt.Sprintf(" bits=%08x utime=%d ubits=%08x", blk.Header.Bits, upd.Header.Timestamp.Unix(), upd.Header.Bits)
+	}
 	// solve and connect
 	if !s.pb {
 		if ci.chain.BestSnapshot().Height+1 != s.nextH {
@@ -413,7 +424,7 @@ func (s *scenario) render(tmpl *mining.BlockTemplate, sel []int64, cbv int64, we
 	feeOK, sigOK, depOK, payOK, wcOK, addrOK, ccb, updOK bool, pb string) string {
 	return fmt.Sprintf("ok sel=%s fees=%s sig=%s cbv=%d wc=%s w=%d chk=fee:%s,sig:%s,dep:%s,pay:%s,wc:%s,meta:%s,ccb:%s,upd:%s,pb:%s",
 		joinInts(sel), joinInts(tmpl.Fees), joinInts(tmpl.SigOpCosts), cbv, b2s(tmpl.WitnessCommitment != nil), weight,
-		b2s(feeOK), b2s(sigOK), b2s(depOK), b2s(payOK), b2s(wcOK), b2s(addrOK), b2s(ccb), b2s(updOK), pb)
+		b2s(feeOK), b2s(sigOK), b2s(depOK), b2s(payOK), b2s(wcOK), b2s(addrOK), b2s(ccb), b2s(updOK), pb) + s.diffObs
 }
 
 // realPool admits the pool transactions to a real mempool.TxPool (parents
@@ -532,4 +543,30 @@ func realMTP(ci *chainInst, height int32) int64 {
 	}
 	sort.Slice(ts, func(i, j int) bool { return ts[i] < ts[j] })
 	return ts[len(ts)/2]
+}
+
+// diffParams renders the difficulty parameters of a network the way C09's
+// model reads them.
+func diffParams(p *chaincfg.Params) string {
+	return fmt.Sprintf("%s:%08x:%s:%s:%d:%d:%d:%d:%s", p.PowLimit.Text(16), p.PowLimitBits, b2s(p.PoWNoRetargeting),
+		b2s(p.ReduceMinDifficulty), int64(p.MinDiffReductionTime/time.Second), int64(p.TargetTimespan/time.Second),
+		int64(p.TargetTimePerBlock/time.Second), p.RetargetAdjustmentFactor, b2s(p.EnforceBIP94))
+}
+
+// realHist reads (timestamp, bits) of the whole best chain, tip first.
+func realHist(ci *chainInst) string {
+	best := ci.chain.BestSnapshot()
+	var parts []string
+	for h := best.Height; h >= 0; h-- {
+		hash, err := ci.chain.BlockHashByHeight(h)
+		if err != nil {
+			panic(err)
+		}
+		hdr, err := ci.chain.HeaderByHash(hash)
+		if err != nil {
+			panic(err)
+		}
+		parts = append(parts, fmt.Sprintf("%d:%08x", hdr.Timestamp.Unix(), hdr.Bits))
+	}
+	return strings.Join(parts, ",")
 }
